@@ -84,6 +84,9 @@ def c05(pid, tier, seed, selftest=False):
              "alias": not lng, "sender": snd}
             for snd in ("first", "last", "absent") for inp in ("file", "stdin") for outp in ("file", "stdout")
             for kr in ("opt", "env", "both") for lng in (False, True)]
+    # ... and `kestrel encrypt -t NAME -f NAME`: the file opens under the private key of the entry called exactly NAME
+    cfgs += [{"cmd": "encrypt", "cause": "none", "prior": "absent", "inp": inp, "outp": "file", "kr": kr, "long": lng, "alias": not lng, "sender": "first"}
+             for inp in ("file", "stdin") for kr in ("opt", "env", "both") for lng in (False, True)]
     cevs = checks_cli.run_configs(rep, pid, "cli-sender", w, cfgs, ["C05_"])
     rep.extra["cli_sender_reports"] = {k: sum(1 for e in cevs if e["named"] == k) for k in set(e["named"] for e in cevs)}
     rep.exhaustive = True
@@ -219,6 +222,11 @@ def c06(pid, tier, seed, selftest=False):
         rep.case(json.dumps(s, sort_keys=True), True)
     rep.sample(one[-1])
     run_oneshot(rep, pid, "terms", "noise", one, tpl, seed, "Trace_Noise", nproc=8, only_prefixes=["C06_", "C19_"])
+    # at the tool: the file the tool leaves on disk conforms (opened by the specification-directed reader) and conforming
+    # files decrypt to their plaintext, on fresh and on re-used output paths, via files and pipes
+    import cli_rt
+    cli_rt.run(rep, pid, tpl, seed, "C06", "pass", thorough)
+    cli_rt.run(rep, pid, tpl, seed, "C06", "key", False)
     n, ex = st.drift(runs)
     rep.extra["model_drift"] = "none" if n == 0 else "%d runs differ from the Layer-B prediction" % n
     return rep.finish()
@@ -242,7 +250,7 @@ def fresh_cfg(maxops, nchunks, reuse, invs):
     return s
 
 
-def exec_history(pid, tpl, seed, hid, ops, keys, plen, lib_only=False):
+def exec_history(pid, tpl, seed, hid, ops, keys, plen, lib_only=False, intr=False):
     """Run one history of operations with identical inputs through the library / the CLI and
     recover everything each operation drew.  Returns the event list."""
     evs = [{"ev": "begin", "id": hid, "ops": ops}]
@@ -261,7 +269,12 @@ def exec_history(pid, tpl, seed, hid, ops, keys, plen, lib_only=False):
                 lib_ops.append({"op": "rand", "id": "%s.%d" % (hid, k)})
                 continue
             reads = [[], [7, 3], [1, 1, 1], [1000, 65536, 5], [65536, 100, 65536]][(k // 2 + len(hid)) % 5]
-            lib_ops.append({"op": "kenc_draws", "kseed": 1, "rseed": 1, "plen": max(plen, 12), "reads": reads, "id": "%s.%d" % (hid, k)})
+            lop = {"op": "kenc_draws", "kseed": 1, "rseed": 1, "plen": max(plen, 12), "reads": reads, "id": "%s.%d" % (hid, k)}
+            if intr and k % 2 == 1:
+                # a transient read interruption after two chunks have been read: whatever the operation does (fail, or
+                # carry on), no (key, nonce) pair may be used twice
+                lop.update({"plen": 200000, "reads": [65536, 65536, 65536], "intr_at": 2 + k // 2})
+            lib_ops.append(lop)
         lib_res = dict(zip(lib_idx, cli.driver_ops(pid, tpl, lib_ops, seed, hid + "lib"))) if lib_ops else {}
         for k, op in enumerate(ops):
             tag = "%s.%d" % (hid, k)
@@ -278,6 +291,8 @@ def exec_history(pid, tpl, seed, hid, ops, keys, plen, lib_only=False):
                 continue
             if op == "kenc" and k in lib_res:
                 o = lib_res[k]
+                if o.get("failed_as_allowed"):
+                    continue
             elif op == "kenc":
                 r = cli.kestrel(["encrypt", sb.path("plain.bin"), "-t", "bob", "-f", "alice", "-o", sb.path("c%d.ktl" % k),
                                  "-k", sb.path("keyring.txt"), "--env-pass"], env={"KESTREL_PASSWORD": keys["alice"]["password"].decode()})
@@ -372,12 +387,14 @@ def c07(pid, tier, seed, selftest=False):
     hists += [["kenc"] * 6, ["penc"] * 6, ["generate"] * 5, ["generate"] + ["changepass"] * 5]
     n_model = len(hists)
     hists += [["kenc"] * 5, ["kenc"] * 2, ["rand"] * 6, ["rand", "kenc", "rand", "kenc"]]       # library only, one process
+    n_intr = len(hists)
+    hists += [["kenc"] * 6]                     # library only, every second one with an interrupted read
     keys = cli.make_keys(pid, tpl, seed, [("alice", b"alice-pw"), ("bob", b"bob-pw")])
     all_evs = []
 
     def one(i_h):
         i, h = i_h
-        return exec_history(pid, tpl, seed, "h%d" % i, h, keys, 70000 if i % 5 == 0 else 10, lib_only=(i >= n_model))
+        return exec_history(pid, tpl, seed, "h%d" % i, h, keys, 70000 if i % 5 == 0 else 10, lib_only=(i >= n_model), intr=(i >= n_intr))
     with cf.ThreadPoolExecutor(max_workers=NCPU) as ex:
         for evs in ex.map(one, list(enumerate(hists))):
             all_evs.append(evs)
@@ -541,4 +558,8 @@ def c08(pid, tier, seed, selftest=False):
     for e in evs:
         rep.case(e["id"], True)
     rep.sample(evs[0])
+    # interactive use with only stdin on a terminal, the ciphertext redirected from stdout, stderr to a log: the file still is
+    # the format and nothing else
+    import checks_cli
+    checks_cli.tty_extension(rep, pid, tpl, seed, thorough, ["C08_"], channels=("redirected",))
     return rep.finish()
